@@ -483,10 +483,8 @@ func c09RoundTrip(src string, q *gojq.Query) (msg string) {
 		return fmt.Sprintf("String() = %q is rejected: %v", s, err)
 	}
 	if !reflect.DeepEqual(q, q2) {
-		// known quirk: `. .[0]` is an identity term with an index suffix, its printed form `.[0]` is an
-		// index term; the two ASTs differ only in that representation
-		if sexprQuery(q) == sexprQuery(q2) && strings.Contains(src, ". .[") {
-			return "KNOWN:identity-dot-bracket: " + fmt.Sprintf("String() = %q re-parses to an index term where the original has an identity term with an index suffix", s)
+		if sexprQuery(q) == sexprQuery(q2) {
+			return fmt.Sprintf("String() = %q parses to a query with the same S-expression %s but a different AST (e.g. an index term where the original has an identity term with an index suffix)", s, sexprQuery(q))
 		}
 		return fmt.Sprintf("String() = %q parses to %s, the original AST is %s", s, sexprQuery(q2), sexprQuery(q))
 	}
@@ -502,7 +500,7 @@ func c09SurfaceGrammar() *gen.Grammar {
 		Name: "C09-surface",
 		Atoms: gen.Atoms(".", "..", ".a", `."a"`, `.["a"]`, ".[1]", ".[1:]", ".[:1]", ".[1:2]", ".[]", "1", "1.5", "1e3", `"s"`, `"a\"b\\c\n"`, `"é"`, "null", "true", "f", "$x", "$__loc__", "m::f", "$m::v",
 			"@base64", `@json "x\(1)"`, `"a\(1)b\("c\(2)")"`, "[]", "{}", "{a: 1}", `{"a": 1}`, "{(1): 2}", "{$x}", "{a}", `{"a"}`, "{if: 1, and: 2, end: 3}", `{@base64: 1}`, `{"a\(1)": 2}`, "{$__loc__}",
-			"break $l", ". as [$a, {b: $c}] | 1", ". as {a: $x, $y, \"b\": [$z], (1): $w} | 1", ". as [$a] ?// $a | 1", "-1", "- 1", "+1", ".a.b", ".a[0]", `.a."b"`, ".a.[0]", `.a.["b"]`, ". .a", `. ."a"`, ". .[0]", ". .[]", `. .["a"]`, ". .[1:]", ".[].[0]", "1 .a", `1 ."a"`, "1.5 .a", "1. .a", `1. ."a"`, "1. .[0]", "1.e2 .a", "1.", ".5", "1.e2", "1. .a?", "0. .a.b", "1 .a.b", "1.5e-3 .a", "1E2 .a", ".. .a", "..[0]", ". . . .a", ".[0]?.[1]", "$x.a", "$x[0]", `"s".a`, "f.a", "[].a", "{}.a",
+			"break $l", ". as [$a, {b: $c}] | 1", ". as {a: $x, $y, \"b\": [$z], (1): $w} | 1", ". as [$a] ?// $a | 1", "-1", "- 1", "+1", ".a.b", ".a[0]", `.a."b"`, ".a.[0]", `.a.["b"]`, ". .a", `. ."a"`, ". .[0]", ". .[]", `. .["a"]`, ". .[1:]", ". .[:1]", ". .[:-1]", ". .[1:2]", ". .[:2][0]", `. .["a"]?`, ". .[:1]?", `. .["a\(1)"]`, ". .[.]", ". .[.:]", ". .[:.]", ".[].[0]", "1 .a", `1 ."a"`, "1.5 .a", "1. .a", `1. ."a"`, "1. .[0]", "1.e2 .a", "1.", ".5", "1.e2", "1. .a?", "0. .a.b", "1 .a.b", "1.5e-3 .a", "1E2 .a", ".. .a", "..[0]", ". . . .a", ".[0]?.[1]", "$x.a", "$x[0]", `"s".a`, "f.a", "[].a", "{}.a",
 			"..a?", ".[]?", ".a?", "1 as $x | 2", "def f: 1; 2", "def f(a; $b): a; f(1; 2)", "label $l | 1", "reduce . as $x (1; 2)", "foreach . as $x (1; 2)", "foreach . as $x (1; 2; 3)",
 			"if 1 then 2 end", "if 1 then 2 else 3 end", "if 1 then 2 elif 3 then 4 else 5 end", "try 1", "try 1 catch 2", "input", "f(1)", "f(1; 2)", ".. | .a", "[1, 2]", "[.[] | 1]", "{a: 1 | 2}", "{a: (1, 2)}",
 			`"\(1;2)"`, "1 as [$a] | 2", "?"),
@@ -547,9 +545,6 @@ func c09Run(c *engine.Ctx) {
 			}
 			if msg := c09RoundTrip(e.S, q); msg != "" {
 				kind := "round-trip"
-				if strings.HasPrefix(msg, "KNOWN:identity-dot-bracket") {
-					kind = "deviation:identity-dot-bracket"
-				}
 				c.Violation(e.S, kind, map[string]any{"query": e.S, "why": msg})
 			}
 			if n <= 5 || !trees && n <= size-1 || !quick && idx%16 == 0 {
